@@ -43,13 +43,14 @@ PROPS["C10"] = dict(
     explanation=MIX)
 
 PROPS["C13"] = dict(
-    level="other", claimed=True,
-    technique="bounded stand-in only: the real functions executed natively over an enumerated space and compared with a reference written in the check; no deductive obligation could be generated for these functions (see level_text), so nothing is counted as proved",
-    level_text="Bounded differential execution of the real ReadAdapter against SliceReader (the reference semantics): every "
-               "operation sequence up to length 3 on short streams under several chunkings, and long seeded sequences across the "
-               "256-byte internal buffer. This is a bounded stand-in, not a proof: the type (RefCell<BufReader<&mut dyn Read>> "
+    level="other", claimed=True, verus=True,
+    technique="contract-based deductive verification for the reference side (Verus on the extracted bodies of every SliceReader method: it is the sequential reader of its byte string, for every slice, position and requested length); the streaming side (ReadAdapter) is a bounded stand-in only: the real functions executed natively over an enumerated space and compared with SliceReader - nothing about ReadAdapter is counted as proved",
+    level_text="Verus (unit slicereaderv, bodies cut out of /repo): SliceReader::{new, read_u8, peek_u8, read_slice, read_array, check_eor, has_more_bytes} - an operation asking for k bytes returns Ok exactly when k bytes are left, then returns bytes pos .. pos + k and advances by k, otherwise UnexpectedEOF with the position unchanged; no overflow or out-of-range index for any length up to usize::MAX. "
+               "Bounded differential execution of the real ReadAdapter against SliceReader (the reference semantics): every "
+               "operation sequence up to length 3 on short streams under several chunkings, long seeded sequences across the "
+               "256-byte internal buffer, and unsatisfiable lengths / counts near usize::MAX after consumed prefixes. The ReadAdapter part is a bounded stand-in, not a proof: the type (RefCell<BufReader<&mut dyn Read>> "
                "plus raw-pointer copies) is outside Verus and beyond what CBMC can unwind.",
-    level_note="Bounded as stated in coverage.native_bounded_standins; nothing is proved for all inputs. std::io::Cursor as a "
+    level_note="Bounded as stated in coverage.native_bounded_standins; for ReadAdapter nothing is proved for all inputs. std::io::Cursor as a "
                "byte source is not compared.",
     explanation=MIX)
 
